@@ -42,7 +42,7 @@ def verify_target(target, timeout_ms=20000, verbose=False, repo=None):
         res.undecided = f"no contract for {target}"
         return res
     I = Interp(L, cs)
-    I.spec_builtins = {"fold", "implies", "old", "pre", "events", "same_object", "final", "byte_at", "forall", "maybe", "has_own", "is_xml", "md5", "sha256", "aes_ecb_enc", "aes_ecb_dec", "aes_cbc_enc", "aes_cbc_dec", "pkcs7", "xor_bytes"}
+    I.spec_builtins = {"fold", "implies", "old", "pre", "events", "same_object", "final", "byte_at", "forall", "maybe", "has_own", "pending_getters", "is_xml", "md5", "sha256", "aes_ecb_enc", "aes_ecb_dec", "aes_cbc_enc", "aes_cbc_dec", "pkcs7", "xor_bytes"}
     ex = Explorer()
     try:
         paths = ex.run(lambda p: cs.verify_path(I, c, p))
@@ -61,6 +61,8 @@ def verify_target(target, timeout_ms=20000, verbose=False, repo=None):
         for ob in p.obligations:
             discharge(ob, timeout_ms)
             res.obligations.append(ob)
+    if ex.unsupported:
+        res.undecided = f"unsupported on {res.outcomes.get('unsupported', 0)} path(s): {ex.unsupported[0]}"
     res.secs = time.time() - t0
     return res
 
